@@ -220,6 +220,30 @@ def run_case(case, ctx):
     if not ok:
         ctx.violation("composite-statistics", f"statistics_from_samples of {canon[:200]} = {sres}; statistics of the combined per-sample "
                       f"value: mean {wm!r}, variance {wv!r}, n {B}", tags=tags, witness=wit)
+    if case["rep"] % 3 == 0:
+        # the Markov-chain route (streaming merge over several draws): statistics of the combined per-sample value over
+        # every drawn sample, with the variance judged relative to itself (a large scalar addend must not swamp it)
+        slog = []
+        monitors.wrap_instance(st, "sample", slog)
+        try:
+            cres = ctx.lib("composite.statistics", comp.statistics, st, num_samples=int(rng.integers(6, 20)), num_chains=int(rng.integers(2, 5)),
+                           burn_in=1, steps=1, tags=tags)
+        finally:
+            object.__delattr__(st, "sample")
+        states = [ev_["result"] for ev_ in slog if isinstance(ev_.get("result"), torch.Tensor)]
+        if states and isinstance(cres, dict):
+            allv = np.concatenate([interp(tree, st, s_.clone(), {})[0] for s_ in states]).astype(float)
+            cm, cv, cn = float(np.mean(allv)), float(np.var(allv, ddof=1)) if len(allv) > 1 else float("nan"), len(allv)
+            sd_ = 0.0 if cv != cv else math.sqrt(max(cv, 0.0))
+            ctx.count("chain_statistics_compared")
+            vt = 1e-9 * ((0.0 if cv != cv else cv) + 1e-3 * abs(cm) * sd_ + 1e-18 * cm * cm + 1e-290)
+            okc = cres.get("num_samples") == cn and abs(cres["mean"] - cm) <= 1e-9 * max(abs(cm), sd_, 1e-12) \
+                and ((cv != cv and cres["variance"] != cres["variance"]) or abs(cres["variance"] - cv) <= vt)
+            if not okc:
+                ctx.violation("composite-statistics", f"statistics() of {canon[:200]} over {cn} drawn samples = {cres}; statistics of the "
+                              f"combined per-sample value: mean {cm!r}, variance {cv!r}", tags=dict(tags, route="chains"), witness=wit)
+        else:
+            ctx.count("chain_statistics_unobservable")
     if d >= 2 and nscal >= 1 and nleaves >= 2:
         ctx.mark_nontrivial(canon)
     ctx.seen("depths", d)
